@@ -10,6 +10,10 @@ CHECKS = {
    "exhaustive enumeration of all matrices/right-hand sides/node sets over a boundary alphabet (choice-tree DFS), math/big reference",
    "Every matrix over {0,1,2,q-1} up to 3x3 (and non-square shapes over {0,1,q-1}) x every right-hand side, every node subset (size<=4) x coefficient vector x evaluation point, every Birkhoff (x,j) pattern n<=4, on k256 and BLS12-381 scalars, is compared with math/big Gaussian elimination / polynomial evaluation; complete inside the alphabet, nothing sampled.",
    "Trusts math/big, /verif/mc/ref/linalg, Go toolchain; purego build; operands outside the alphabets are not covered.", "DESIGN §5 C20"),
+ "C11": ("SCHED", "model_checking",
+   "stateless model checking of the real router under a cooperative scheduler: all thread interleavings up to a preemption bound x all arrival orders/fault placements, judged against a reference delivery log",
+   "pkg/network is compiled from an automatically instrumented copy in which every mutex/channel/select/go/context operation is a scheduling point; closed scenarios (demux, namespaces, duplicates, cancellation+retry, foreign traffic, close/transport failure, lowered buffer bound) are explored for every schedule with <=2 (quick) / <=3 (thorough) preemptions and every arrival order; each ReceiveFrom outcome is judged linearizability-style against the adversarial network's own delivery log; no-enabled-thread = deadlock.",
+   "Trusts the scheduler model (sync.Mutex, buffered channels, close, select, go, context.WithCancel; sequentially consistent memory), the source rewriter (rejects every construct it does not model), Go toolchain. Weak-memory effects and unsynchronised accesses are left to the free-running -race pass.", "DESIGN §3.2, §5 C11"),
 }
 NOT_YET = {}
 for i in range(1, 21):
@@ -29,6 +33,7 @@ m = {
  },
  "engines": [
    {"name": "CT", "path": "mc/engine/ct.go", "serves_properties": sorted(k for k, v in CHECKS.items() if "CT" in v[0]), "kind_free_text": "stateless exhaustive DFS over Choose points of a check body that calls the real library; deviation bounded; parallel over subtrees"},
+   {"name": "SCHED", "path": "mc/mcrt/mcrt.go + mc/instrument/main.go", "serves_properties": sorted(k for k, v in CHECKS.items() if "SCHED" in v[0]), "kind_free_text": "cooperative scheduler runtime + go/ast source rewriter that routes every synchronisation operation of pkg/network through it (mounted by build overlay); explored by CT with iterative preemption bounding, sharded over worker processes"},
    {"name": "BFS", "path": "mc/engine/bfs.go", "serves_properties": sorted(k for k, v in CHECKS.items() if "BFS" in v[0]), "kind_free_text": "explicit-state breadth-first search; successor = replay history on fresh real objects + one operation"},
  ],
  "checks": [],
